@@ -319,6 +319,27 @@ func (h *heapRun) applyQuery(o *obj, st Step, ret map[string]interface{}) bool {
 		}
 		for range ch {
 		}
+	case "phaseref", "phasentref":
+		// phasing against caller-supplied references: neither the reads nor the references may change
+		other, ok := st.A["other"]
+		if !ok || al.Alphabet() != align.NUCLEOTIDS || al.NbSequences() < 1 {
+			return true
+		}
+		refs := h.get(int(other.(float64))).sb
+		if refs.Alphabet() != align.NUCLEOTIDS || refs.NbSequences() < 1 {
+			return true
+		}
+		ph := align.NewPhaser()
+		ph.SetTranslate(q == "phaseref", 0)
+		ph.SetReverse(true)
+		ph.SetCpus(2)
+		ch, err := ph.Phase(refs, al)
+		if err != nil {
+			ret["err"] = true
+			return true
+		}
+		for range ch {
+		}
 	case "orf":
 		_, err := al.LongestORF(true)
 		ret["err"] = err != nil
